@@ -93,9 +93,9 @@ def validate(chk, progs, name="sem", batches=None, timeout=1500, invariants=("Se
                 bounds.append((k + 1, k + len(evs), p))
                 k += len(evs)
         env = {"ASTS": ap, "TRACE": tp}
-        r = tlc("TheoSemTrace", cfg, chk.pid, "%s%d" % (name, gi), env=env, workers=1, timeout=timeout, xmx="4g", deque=True)
+        r = tlc("TheoSemTrace", cfg, chk.pid, "%s%d" % (name, gi), env=env, workers=1, timeout=timeout, xmx="3g", deque=True)
         if r.violated is not None and not r.error and not r.timed_out:
-            r2 = tlc("TheoSemTrace", cfg, chk.pid, "%s%d_again" % (name, gi), env=env, workers=1, timeout=timeout, xmx="4g", deque=True)
+            r2 = tlc("TheoSemTrace", cfg, chk.pid, "%s%d_again" % (name, gi), env=env, workers=1, timeout=timeout, xmx="3g", deque=True)
             if r2.violated != r.violated:
                 raise Broken("trace verdict not repeatable: %s vs %s" % (r.violated, r2.violated))
         return r, tp, ap, g, bounds, k
